@@ -26,6 +26,8 @@ type Image struct {
 	Funcs    []Func
 	Symbols  []elf.Symbol // .symtab, may be empty (stripped)
 	Type     elf.Type
+	// TextStartDelta is runtime.text minus the address of .text (non-zero with external linking)
+	TextStartDelta uint64
 }
 
 // LoadImage reads .text, the pclntab function table and .symtab of a Go binary.
@@ -66,6 +68,18 @@ func LoadImage(path string) (*Image, error) {
 		var rebase uint64
 		if n := len(tab.Funcs); n > 0 && tab.Funcs[n-1].End <= uint64(len(im.Text)) && ts.Addr > uint64(len(im.Text)) {
 			rebase = ts.Addr
+		}
+		// debug/gosym takes the text start it is given (.text) instead of the one in the table's header; with external
+		// linking runtime.text lies a little after the start of .text (C start-up code): use the header's value
+		if len(pd) >= 32 && pd[7] == 8 {
+			hdr := uint64(0)
+			for i := 0; i < 8; i++ {
+				hdr |= uint64(pd[24+i]) << (8 * uint(i))
+			}
+			if hdr > ts.Addr && hdr < ts.Addr+uint64(len(im.Text)) {
+				rebase += hdr - ts.Addr
+				im.TextStartDelta = hdr - ts.Addr
+			}
 		}
 		for i := range tab.Funcs {
 			fn := &tab.Funcs[i]
